@@ -32,7 +32,7 @@ BASELINE = Path(__file__).resolve().parent / 'c03_baseline.json'
 WRITE_FISTR = 'femio/formats/fistr/write_fistr.py'
 
 # regions of c01_tables the C03 model / correspondence depends on
-RELEVANT = {'ignore', 'generate_constraints', 'split_blocks', 'first_write', 'writer', 'cnt_sections'}
+RELEVANT = {'cflux_label', 'ignore', 'generate_constraints', 'split_blocks', 'first_write', 'writer', 'cnt_sections'}
 
 
 # ---------------------------------------------------------------- AST helpers
@@ -533,6 +533,26 @@ def tr_cnt_first_write(repo, consumed):
     raise TranslateError(E + 'no write to the .cnt file found')
 
 
+# ---------------------------------------------------------------- _read_cnt_cflux: label decision
+CFLUX_BODY_ALL_PURE = "cfluxes = header_data.extract_data('!CFLUX')\ntypes = header_data.extract_headers('!CFLUX').extract_captures('TYPE=(\\\\w+)')\nif len(cfluxes) == 0:\n    return\nif len(types) == 0:\n    label = 'cflux'\nelif np.all(types == ['PURE']):\n    label = 'pure_cflux'\nelse:\n    headers = header_data.extract_headers('!CFLUX')\n    raise ValueError(f'Unsupported CFLUX configuration: {headers}')\ncflux_data = self._extend_assignments(cfluxes)\n_ids, _values = cflux_data.split_vertical_all()\nids = _ids.astype(int)\nvalues = _values.astype(float)\nself.constraints.update({label: FEMAttribute(label, ids, values.values[:, None])})\nreturn"
+CFLUX_BODY_PER_BLOCK = "cfluxes = header_data.extract_data('!CFLUX')\ntypes = header_data.extract_headers('!CFLUX').extract_captures('TYPE=(\\\\w+)')\nif len(cfluxes) == 0:\n    return\nif len(types) == 0:\n    labelled_cfluxes = {'cflux': cfluxes}\nelif np.all(types == ['PURE']):\n    is_cflux = header_data.headers.str.contains('!CFLUX').values\n    is_typed = header_data.headers.str.contains('TYPE=\\\\w+').values\n    labelled_cfluxes = {label: header_data.data.iloc[np.concatenate(header_data.list_indices[selected])] for label, selected in [('cflux', is_cflux & ~is_typed), ('pure_cflux', is_cflux & is_typed)] if np.any(selected)}\nelse:\n    headers = header_data.extract_headers('!CFLUX')\n    raise ValueError(f'Unsupported CFLUX configuration: {headers}')\nfor label, labelled in labelled_cfluxes.items():\n    if len(labelled) == 0:\n        continue\n    cflux_data = self._extend_assignments(labelled)\n    _ids, _values = cflux_data.split_vertical_all()\n    ids = _ids.astype(int)\n    values = _values.astype(float)\n    self.constraints.update({label: FEMAttribute(label, ids, values.values[:, None])})\nreturn"
+
+
+def tr_cflux_label(repo, consumed):
+    """does _read_cnt_cflux label each !CFLUX block by its own header (True) or all rows by the
+    single captured TYPE= (False)?  The two bodies the model (Pure.read_cntx_with) was written
+    for are recognised (AST, so layout / comments do not matter); anything else cannot be read."""
+    txt, tree = c1._src(repo, 'femio/formats/fistr/fistr.py')
+    fn = c1._find_func(c1._find_class(tree, 'FrontISTRData'), '_read_cnt_cflux')
+    consumed['fistr.py:_read_cnt_cflux'] = c1._region(txt, fn)
+    got = '\n'.join(ast.unparse(x) for x in c1._body_wo_doc(fn))
+    if got == CFLUX_BODY_ALL_PURE:
+        return False
+    if got == CFLUX_BODY_PER_BLOCK:
+        return True
+    raise TranslateError('_read_cnt_cflux is neither of the two modelled bodies')
+
+
 # ---------------------------------------------------------------- all regions
 def _components(repo, consumed):
     """(name, thunk -> dict of table entries) in the order of c01_tables.translate"""
@@ -582,7 +602,10 @@ def _components(repo, consumed):
         tt = {'cnt_sections': secs, 'frac_digits': c1._fmt_digits(real_fmt, 'write_data')}
         return {'cnt_sections': secs, 'cnt_sections_canon': [list(x) for x in canon_sections(tt)]}
 
-    return [('dict_fistr', dict_fistr), ('writer', writer), ('element_types', element_types),
+    def cflux_label():
+        return {'cflux_per_block': tr_cflux_label(repo, consumed)}
+
+    return [('cflux_label', cflux_label), ('dict_fistr', dict_fistr), ('writer', writer), ('element_types', element_types),
             ('ignore', ignore), ('read_array', read_array), ('remove_useless', remove_useless),
             ('generate_constraints', generate_constraints), ('split_blocks', split_blocks),
             ('first_write', first_write), ('pinned', pinned), ('cnt_sections', cnt_sections)]
@@ -675,6 +698,10 @@ def emit_sections(t):
         'Definition cnt_sections : list (string * string * section_source * list string) := [',
         ';\n'.join(rows),
         '].',
+        '',
+        '(* fistr.py _read_cnt_cflux: with one TYPE=PURE block, blocks without TYPE= are labelled',
+        '   cflux (true: each block by its own header) or everything is pure_cflux (false) *)',
+        f'Definition cflux_per_block : bool := {"true" if t["cflux_per_block"] else "false"}.',
         ''])
 
 
